@@ -8,6 +8,7 @@ position are collected, and the new value is their arithmetic mean `sum / count`
 import Dtaiverif.Proofs.Dba
 import Dtaiverif.Proofs.Path
 import Dtaiverif.Model.Dba
+import Dtaiverif.Proofs.DbaChain
 
 namespace Dtai
 variable {K : Type} [Field K] [LinearOrder K] [IsStrictOrderedRing K]
@@ -56,6 +57,22 @@ theorem C12_old_alignment_is_optimal {α : Type} [LinearOrderedAddCommMonoidWith
     ∃ rest, backtrack (D g) g.pen (I + J + 2) (I+1) (J+1) = (I, J) :: rest ∧
       g.ValidRev ((I, J) :: rest) ∧ g.costRev ((I, J) :: rest) = D g (I+1) (J+1) :=
   backtrack_valid g h I J hfin
+
+/-- **The fit never gets worse — the whole chain in one statement.** For the grids between an average of
+length `t` and each selected series (point cost = squared difference, penalty `p ≥ 0`, any window): if
+every series comes with an admissible complete path that is optimal for the current average `c` (what
+the step traces, C05) and the new average `c'` is, at every position some point is aligned to, the mean
+of the aligned points, then `Σ_k DTW²(c', s_k) ≤ Σ_k DTW²(c, s_k)`. -/
+theorem C12_step_nonincreasing (t window : Nat) (p : K) (hp : 0 ≤ p) (c c' : Nat → K) (L : List (Aligned K))
+    (hvalid : ∀ a ∈ L, ∃ q rest, a.path = q :: rest ∧ (dbaGrid t a.m window p c a.s).ValidRev a.path ∧
+      (dbaGrid t a.m window p c a.s).EndOk q ∧
+      (dbaGrid t a.m window p c a.s).costRev a.path = dtwSpec (dbaGrid t a.m window p c a.s))
+    (hpos : ∀ pr ∈ assocPairs L, pr.1 < t)
+    (hmean : ∀ i, i < t → ((assocPairs L).filter fun pr => pr.1 == i) ≠ [] →
+      c' i = mean (((assocPairs L).filter fun pr => pr.1 == i).map Prod.snd)) :
+    (L.map fun a => dtwSpec (dbaGrid t a.m window p c' a.s)).sum ≤
+      (L.map fun a => dtwSpec (dbaGrid t a.m window p c a.s)).sum :=
+  dba_step_nonincreasing t window p hp c c' L hvalid hpos hmean
 
 /-- packed bit mask (`np.packbits(mask, bitorder='little')`) read back by `bit_test` -/
 theorem C12_bit_mask : ∀ r < 16, bitTest #[0b10100101, 0b00000011] r =
